@@ -293,6 +293,10 @@ func (j *Job) evaluateClusterStatus() {
 func (j *Job) start() error {
 	j.log.Info("starting")
 
+	// A checkpoint that was in flight when the previous assembly failed can
+	// never complete; drop it so that checkpointing can resume.
+	j.snapshotStore.AbortPendingCheckpoint()
+
 	// Get the job's current checkpoint which may be nil
 	ckpt := j.snapshotStore.CurrentCheckpoint()
 
